@@ -1,4 +1,5 @@
 CONSTANTS
+  SeriesFirst = FALSE
   CommitSeqBeforeWrite = FALSE
   FreezeBeforeMetaFlush = TRUE
   AtomicRound = FALSE
